@@ -71,10 +71,26 @@ PROPS = {
         "technique": "Lean 4 proofs over a fixed-point model + regenerated facts + differential correspondence",
         "explanation": "MintAndAllocate and EndBlocker modelled including the negative and cap branches; rounding lemmas prove the cap; block histories with enable/disable/cap changes run on the real keeper code and are compared with the compiled Lean driver; independent big.Int monitors recompute the formula from consecutive timestamps.",
     },
+    "C11": {
+        "id": "C11",
+        "lean_modules": ["HaqqModel.Props.C11"],
+        "level": "proof",
+        "trusted_base": COMMON_TRUST + [
+            "modelled, not verified: sdk.Int (256-bit; the overflow panic of a_i*s is reproduced in the driver, outside the proved model), bank escrow/mint/burn and the ERC20 conversion of the liquid token (abstracted as supply-neutral balance moves), the vesting keeper's ApplyVestingSchedule glue (its merge start argument is a regenerated fact)",
+        ],
+        "assumptions": [
+            "the liquidating account satisfies Validate() (AccValid) — what the vesting module guarantees for stored accounts (C09)",
+            "holders cannot redeem more than the supply of a liquid denomination (bank balance check)",
+        ],
+        "level_text": "Machine-checked proofs (Lean 4): SubtractAmountFromPeriods conserves every period in every denomination, moves exactly the requested amount and fails exactly when funds are insufficient; Liquidate splits the lockup schedule exactly at the same absolute instants (account-after + liquid = account-before, at every instant); Redeem splits the denomination's schedule exactly and hands the redeemed part to the recipient under the denomination's own start (nothing earlier); for every history of liquidate/transfer/redeem each denomination's schedule sums to its supply and the module escrow equals the total liquid supply.",
+        "level_note": "Trusted: Lean kernel; go/ast extractor; correspondence harness; keeper glue (account store, bank, erc20 conversion) covered by correspondence only.",
+        "technique": "Lean 4 proofs by list induction (split relation, append/shift lemmas) + history invariant + differential correspondence",
+        "explanation": "Pure schedule functions of x/liquidvesting/types compared line by line with the compiled Lean driver; Go monitors check per-period conservation, lengths and totals on the real code.",
+    },
 }
 
 # properties not (yet) claimed, each with a reason; entries disappear as checks are built
 NOT_APPLICABLE = {pid: "check not built yet in this session (planned: see DESIGN.md §5)" for pid in
-                  ["C01", "C02", "C03", "C04", "C05", "C06", "C07", "C08", "C10", "C11", "C14", "C15", "C16", "C18", "C19", "C20"]}
+                  ["C01", "C02", "C03", "C04", "C05", "C06", "C07", "C08", "C10", "C14", "C15", "C16", "C18", "C19", "C20"]}
 
 HOOK_COMMITS = []
